@@ -131,7 +131,7 @@ Definition pok (q : sport) : Prop :=
       dsegs_wf sg /\ segs_plain sg /\ last_not_slash (map conv sg) /\
       exists tys, a = render_types tys /\ types_ok tys
   | SPort sg a _ (Some _) =>
-      a = [] /\ exists c, sg = comps_segs [c] /\ dcomp c /\ nodigits (fst c)
+      a = [] /\ exists cs, sg = comps_segs cs /\ cs <> [] /\ Forall dcomp cs /\ Forall (fun c => nodigits (fst c)) cs
   end.
 
 Lemma spells_chars (P : Z -> Prop) l :
@@ -159,6 +159,39 @@ Proof.
     rewrite ?app_nil_r, <- ?app_assoc; reflexivity.
 Qed.
 
+Lemma key_app a b : key (a ++ b) = key a ++ key b.
+Proof. unfold key. rewrite map_app, concat_app. reflexivity. Qed.
+
+Lemma comps_key cs : cs <> [] -> key (comps_segs cs) = key (comps_conv cs) ++ [47].
+Proof.
+  induction cs as [|c r IH]; intros Hne; [congruence|].
+  rewrite comps_segs_cons, key_app, <- (comps_segs_one c), comp_key.
+  destruct r as [|c' r']; cbn [comps_conv].
+  - cbn [comps_segs flat_map]. unfold key at 2. cbn [map concat]. rewrite !app_nil_r. reflexivity.
+  - rewrite IH by discriminate. rewrite key_app. unfold key at 4. cbn [map concat]. fold (key (comps_conv (c' :: r'))).
+    rewrite <- !app_assoc. reflexivity.
+Qed.
+
+Lemma comps_conv_plain cs : Forall dcomp cs -> Forall (fun c => nodigits (fst c)) cs -> segs_plain (comps_conv cs).
+Proof.
+  induction cs as [|c r IH]; intros Hc Hn; [exact I|].
+  inversion Hc as [|? ? Hc1 Hcr]; subst. inversion Hn as [|? ? Hn1 Hnr]; subst. specialize (IH Hcr Hnr).
+  destruct Hc1 as [Hne _]. assert (H47 : nodigits [47]) by (constructor; [reflexivity | constructor]).
+  destruct c as [t [n|]]; destruct r as [|c' r']; cbn [comps_conv comp_conv app fst segs_plain] in *;
+    repeat split; auto; discriminate.
+Qed.
+
+Lemma comps_segs_plain cs : Forall dcomp cs -> Forall (fun c => nodigits (fst c)) cs -> segs_plain (comps_segs cs).
+Proof.
+  induction cs as [|c r IH]; intros Hc Hn; [exact I|].
+  inversion Hc as [|? ? Hc1 Hcr]; subst. inversion Hn as [|? ? Hn1 Hnr]; subst. specialize (IH Hcr Hnr).
+  destruct Hc1 as [Hne _]. assert (H47 : nodigits [47]) by (constructor; [reflexivity | constructor]).
+  rewrite comps_segs_cons.
+  destruct c as [t [n|]]; cbn [comp_segs app fst segs_plain] in *.
+  - repeat split; auto; discriminate.
+  - repeat split; auto; [intros E; apply app_eq_nil in E; destruct E; discriminate | apply Forall_app; split; assumption].
+Qed.
+
 (* a matching port: the shaped address begins with the port's key; and the
    address begins with a '#'-free text that IS the key if it has no digits *)
 Lemma match_shape q m r pe :
@@ -167,27 +200,27 @@ Lemma match_shape q m r pe :
   (exists m', prefix m' m /\ Forall no35 m' /\ (nodigits m' -> m' = skey q)).
 Proof.
   intros Hq Haddr Hm. destruct q as [sg a mt [l|]]; cbn [pok sname skey] in *.
-  - destruct Hq as [-> [c [-> [Hc Hnd]]]].
-    pose proof (comp_conv_wf c Hc) as Hw.
-    set (p := {| segs := map conv (comp_conv c); subtree := true; types := None |}).
-    assert (Hr : render_name (comps_segs [c]) [] = PatSpec.render p).
-    { unfold PatSpec.render, render_tail, p, render_name. fold (flatten (comps_segs [c])).
-      cbn [segs subtree types render_types app]. rewrite render_conv, comp_flatten, !app_nil_r. reflexivity. }
+  - destruct Hq as [-> [cs [-> [Hcs [Hc Hnd]]]]].
+    pose proof (comps_conv_wf cs Hc) as Hw.
+    set (p := {| segs := map conv (comps_conv cs); subtree := true; types := None |}).
+    assert (Hr : render_name (comps_segs cs) [] = PatSpec.render p).
+    { unfold PatSpec.render, render_tail, p, render_name. fold (flatten (comps_segs cs)).
+      cbn [segs subtree types render_types app]. rewrite render_conv, (comps_flatten cs Hcs), !app_nil_r. reflexivity. }
     rewrite Hr in Hm.
     assert (Hwf : wf_pat p).
     { unfold wf_pat, p. cbn [segs subtree types]. repeat split;
         [apply conv_seg_ok; exact Hw | apply conv_enum_sep; exact Hw | intros E; discriminate]. }
     destruct (path_sound p m r pe Hwf Haddr Hm) as [_ Hsp].
     unfold path_spec, p in Hsp. cbn [subtree segs] in Hsp. destruct Hsp as [x [Hx ->]].
-    pose proof (comp_conv_plain c Hnd (proj1 Hc)) as Hpl.
+    pose proof (comps_conv_plain cs Hc Hnd) as Hpl.
     split.
     + exists (shape pe). unfold shape. rewrite (spells_shape _ x (47 :: pe) false Hpl ltac:(discriminate) Hx eq_refl).
-      rewrite comp_key, <- app_assoc. reflexivity.
+      rewrite (comps_key cs Hcs), <- app_assoc. reflexivity.
     + exists (x ++ [47]). split; [|split].
       * apply prefix_app. exists pe. rewrite <- app_assoc. reflexivity.
       * apply Forall_app. split; [apply (spells_chars no35 _ dchar_no35 digit_no35 Hw x Hx) | constructor; [unfold no35; lia | constructor]].
       * intros Hn. apply Forall_app in Hn. destruct Hn as [Hn _].
-        destruct (spells_nodigits _ x Hx Hn) as [-> _]. rewrite comp_key. reflexivity.
+        destruct (spells_nodigits _ x Hx Hn) as [-> _]. rewrite (comps_key cs Hcs). reflexivity.
   - destruct Hq as [Hw [Hpl [Hls [tys [-> Ht]]]]].
     set (p := {| segs := map conv sg; subtree := false; types := tys |}).
     assert (Hr : render_name sg (render_types tys) = PatSpec.render p).
@@ -300,10 +333,7 @@ Definition keys_free (l : list sport) : Prop :=
 Lemma pok_plain q : pok q -> pplain q /\ pargs_ok q.
 Proof.
   destruct q as [sg a mt [l|]]; cbn [pok pplain pargs_ok].
-  - intros [-> [c [-> [Hc Hnd]]]]. split; [|left; reflexivity].
-    destruct c as [t [n|]]; cbn [comps_segs flat_map comp_segs app segs_plain fst] in *; destruct Hc as [Hne _].
-    + repeat split; auto; try discriminate. constructor; [reflexivity | constructor].
-    + repeat split; auto. * intros E; apply app_eq_nil in E; destruct E; discriminate. * apply Forall_app. split; [exact Hnd | constructor; [reflexivity | constructor]].
+  - intros [-> [cs [-> [_ [Hc Hnd]]]]]. split; [|left; reflexivity]. apply comps_segs_plain; assumption.
   - intros [_ [Hpl [_ [tys [-> Ht]]]]]. split; [exact Hpl|].
     destruct (render_types_shape tys Ht) as [->|[X ->]]; [left; reflexivity | right; reflexivity].
 Qed.
@@ -438,30 +468,45 @@ Proof.
   apply negb_true_iff in H47. repeat split; try assumption; [destruct t0; discriminate | apply has_char_in; exact H47].
 Qed.
 
-Lemma sub_okb_ok sg a : sub_okb sg a = true ->
-  a = [] /\ exists c, sg = comps_segs [c] /\ dcomp c /\ nodigits (fst c) /\ comp_wf c.
+Definition comp_good (c : comp) : Prop := dcomp c /\ nodigits (fst c) /\ comp_wf c.
+
+Lemma comps_okb_ok : forall k sg, (length sg <= k)%nat -> comps_okb sg = true ->
+  exists cs, sg = comps_segs cs /\ Forall comp_good cs.
 Proof.
-  unfold sub_okb. intros H. apply andb_true_iff in H. destruct H as [Ha H].
+  induction k as [|k IH]; intros sg Hlen H.
+  - destruct sg; [exists []; split; [reflexivity | constructor] | cbn [length] in Hlen; lia].
+  - destruct sg as [|[t|n] r]; [exists []; split; [reflexivity | constructor] | | discriminate].
+    cbn [length] in Hlen.
+    assert (Hplain : (last t 0 =? 47) && text_okb (removelast t) && comps_okb r = true ->
+                     exists cs, NameModel.Lit t :: r = comps_segs cs /\ Forall comp_good cs).
+    { intros H'. apply andb_true_iff in H'. destruct H' as [H' Hr]. apply andb_true_iff in H'. destruct H' as [Hl Ht].
+      apply Z.eqb_eq in Hl. destruct (text_okb_ok _ Ht) as [Hne [Hd [Hn [H35 [H58 H47]]]]].
+      assert (Htne : t <> []) by (intros ->; cbn in Hne; congruence).
+      destruct (IH r ltac:(lia) Hr) as [cs [-> Hcs]].
+      exists ((removelast t, None) :: cs). split.
+      - rewrite comps_segs_cons. cbn [comp_segs app]. rewrite <- Hl, <- app_removelast_last by exact Htne. reflexivity.
+      - constructor; [|exact Hcs]. unfold comp_good, dcomp, comp_wf. cbn [fst snd]. repeat split; assumption. }
+    destruct r as [|[t2|n2] r2]; cbn [comps_okb] in H.
+    + apply Hplain. exact H.
+    + apply Hplain. exact H.
+    + destruct r2 as [|[t3|n3] r3]; [discriminate| |discriminate].
+      destruct t3 as [|c [|? ?]]; [discriminate| |discriminate].
+      apply andb_true_iff in H. destruct H as [H Hr]. apply andb_true_iff in H. destruct H as [H H1].
+      apply andb_true_iff in H. destruct H as [H H0]. apply andb_true_iff in H. destruct H as [Hc Ht].
+      apply Z.eqb_eq in Hc. subst c. apply Z.leb_le in H0. apply Z.ltb_lt in H1.
+      destruct (text_okb_ok _ Ht) as [Hne [Hd [Hn [H35 [H58 H47]]]]].
+      cbn [length] in Hlen. destruct (IH r3 ltac:(lia) Hr) as [cs [-> Hcs]].
+      exists ((t, Some n2) :: cs). split; [reflexivity|].
+      constructor; [|exact Hcs]. unfold comp_good, dcomp, comp_wf. cbn [fst snd]. repeat split; try assumption; lia.
+Qed.
+
+Lemma sub_okb_ok sg a : sub_okb sg a = true ->
+  a = [] /\ exists cs, sg = comps_segs cs /\ cs <> [] /\ Forall comp_good cs.
+Proof.
+  unfold sub_okb. intros H. apply andb_true_iff in H. destruct H as [H Hc]. apply andb_true_iff in H. destruct H as [Ha Hne].
   split; [destruct a; [reflexivity | discriminate]|].
-  destruct sg as [|[t|n] [|[t2|n2] [|[t3|n3] [|? ?]]]]; try discriminate.
-  - apply andb_true_iff in H. destruct H as [Hl Ht]. apply Z.eqb_eq in Hl.
-    destruct (text_okb_ok _ Ht) as [Hne [Hd [Hn [H35 [H58 H47]]]]].
-    assert (Htne : t <> []) by (intros ->; cbn in Hne; congruence).
-    exists (removelast t, None). split; [|split; [|split]].
-    + cbn [comps_segs flat_map comp_segs app]. rewrite <- Hl, <- app_removelast_last by exact Htne. reflexivity.
-    + unfold dcomp. cbn [fst snd]. repeat split; assumption.
-    + exact Hn.
-    + unfold comp_wf. cbn [fst snd]. repeat split; assumption.
-  - destruct t3 as [|c [|? ?]]; try discriminate.
-    apply andb_true_iff in H. destruct H as [H H1]. apply andb_true_iff in H. destruct H as [H H0].
-    apply andb_true_iff in H. destruct H as [Hc Ht]. apply Z.eqb_eq in Hc. subst c.
-    apply Z.leb_le in H0. apply Z.ltb_lt in H1.
-    destruct (text_okb_ok _ Ht) as [Hne [Hd [Hn [H35 [H58 H47]]]]].
-    exists (t, Some n2). split; [reflexivity|]. split; [|split].
-    + unfold dcomp. cbn [fst snd]. repeat split; try assumption; lia.
-    + exact Hn.
-    + unfold comp_wf. cbn [fst snd]. repeat split; try assumption; lia.
-  - destruct t3 as [|c [|? ?]]; discriminate.
+  destruct (comps_okb_ok (length sg) sg (le_n _) Hc) as [cs [-> Hcs]].
+  exists cs. split; [reflexivity|]. split; [|exact Hcs]. intros ->. discriminate.
 Qed.
 
 Lemma prefixb_iff a b : NameModel.prefixb a b = true <-> prefix a b.
@@ -500,20 +545,23 @@ Lemma port_okb_ok p : port_okb p = true -> pok p /\ sport_wf p /\ dok p /\ lok p
 Proof.
   induction p as [sg a mt s IHs] using sport_ind2. intros H. destruct s as [l|]; cbn [port_okb] in H.
   - apply andb_true_iff in H. destruct H as [H Hall]. apply andb_true_iff in H. destruct H as [Hsub Htab].
-    destruct (sub_okb_ok sg a Hsub) as [-> [c [-> [Hc [Hnd Hcw]]]]].
+    destruct (sub_okb_ok sg a Hsub) as [-> [cs [-> [Hcs Hgood]]]].
+    assert (Hc : Forall dcomp cs) by (eapply Forall_impl; [|exact Hgood]; intros ? [? _]; assumption).
+    assert (Hnd : Forall (fun c => nodigits (fst c)) cs) by (eapply Forall_impl; [|exact Hgood]; intros ? [_ [? _]]; assumption).
+    assert (Hcw : Forall comp_wf cs) by (eapply Forall_impl; [|exact Hgood]; intros ? [_ [_ ?]]; assumption).
     apply okb_all_forall in Hall. rewrite forallb_forall in Hall.
     assert (HF : Forall (fun q => pok q /\ sport_wf q /\ dok q /\ lok q) l).
     { rewrite Forall_forall in *. intros q Hq. apply IHs; [exact Hq | apply Hall; exact Hq]. }
     assert (Hpok : Forall pok l) by (eapply Forall_impl; [|exact HF]; cbv beta; intros ? [? [? [? ?]]]; assumption).
     pose proof (keys_freeb_ok l Htab) as Hkf.
     split; [|split; [|split]].
-    + cbn [pok]. split; [reflexivity|]. exists c. auto.
+    + cbn [pok]. split; [reflexivity|]. exists cs. auto.
     + cbn [sport_wf]. split; [split; [left|]; reflexivity|]. split.
-      * exists [c]. split; [reflexivity|]. split; [constructor; [exact Hcw | constructor] | discriminate].
+      * exists cs. split; [reflexivity|]. split; assumption.
       * apply forall_all. eapply Forall_impl; [|exact HF]; cbv beta; intros ? [? [? [? ?]]]; assumption.
-    + cbn [dok]. split; [reflexivity|]. split; [exists c; auto|]. split; [apply keys_table_disjoint; assumption|].
+    + cbn [dok]. split; [reflexivity|]. split; [exists cs; auto|]. split; [apply keys_table_disjoint; assumption|].
       apply forall_all. eapply Forall_impl; [|exact HF]; cbv beta; intros ? [? [? [? ?]]]; assumption.
-    + cbn [lok]. split; [reflexivity|]. split; [exists c; auto|]. split; [apply keys_lookup_disjoint; assumption|].
+    + cbn [lok]. split; [reflexivity|]. split; [exists cs; auto|]. split; [apply keys_lookup_disjoint; assumption|].
       apply forall_all. eapply Forall_impl; [|exact HF]; cbv beta; intros ? [? [? [? ?]]]; assumption.
   - unfold leaf_okb in H. apply andb_true_iff in H. destruct H as [H Ha]. apply andb_true_iff in H. destruct H as [H Hl].
     apply andb_true_iff in H. destruct H as [Hs Hf].
@@ -596,17 +644,32 @@ Proof.
   do 45 right. left. reflexivity.
 Qed.
 
-(* ---- observation: a multi-component sub-tree name under the macro recursion callback ------ *)
-(* { "a/b/" -> { "x" } } with C04's tree model (rRecurCb: SNIP strips ONE component): the walk
-   reports ([0;0], "/a/b/x"); its dispatch reaches the sub-tree port only - the inner table
-   receives "b/x" - no leaf callback, matches = 0.  This is the shape the side conditions
-   of C09_dispatchable exclude (sub-tree ports of one component); names_ok says false. *)
+(* ---- a multi-component sub-tree name under the macro recursion callback -------------------- *)
+(* { "a/b/" -> { "x" } }: the walk reports ([0;0], "/a/b/x"); with SNIP skipping as many
+   components as the name has (DispatchModel.snipk) its dispatch reaches the leaf, and the
+   name is accepted by names_ok (structured by components: "a/" "b/").  The behaviour
+   before the fix is kept in SnipRegress.v. *)
 Definition ex_multi : list sport :=
-  [SPort [NameModel.Lit [97; 47; 98; 47]] [] None (Some [SPort [NameModel.Lit [120]] [] None None])].
+  [SPort [NameModel.Lit [97; 47]; NameModel.Lit [98; 47]] [] None (Some [SPort [NameModel.Lit [120]] [] None None])].
 
-Example multicomponent_macro_refuted :
+(* "a#3/b#2/c/" -> { "e", "v#2/w#11:i" } *)
+Definition ex_multi2 : list sport :=
+  [SPort [NameModel.Lit [97]; NameModel.Enum 3; NameModel.Lit [47]; NameModel.Lit [98]; NameModel.Enum 2; NameModel.Lit [47];
+          NameModel.Lit [99; 47]] [] None
+     (Some [SPort [NameModel.Lit [101]] [] None None;
+            SPort [NameModel.Lit [118]; NameModel.Enum 2; NameModel.Lit [47; 119]; NameModel.Enum 11] [58; 105] None None])].
+
+Example multicomponent_macro :
   walk None (map render_port ex_multi) [] = WOk [([0%nat; 0%nat], [47; 97; 47; 98; 47; 120])] [47] /\
   (let d := dispatch (to_tree no_hash_search one_id ex_multi) [47; 97; 47; 98; 47; 120] [] true 0 in
-   matches d = 0 /\ leaf_count (log d) = 0 /\ length (log d) = 1%nat) /\
-  names_ok ex_multi = false.
-Proof. split; [vm_compute; reflexivity|]. split; [|vm_compute; reflexivity]. vm_compute. repeat split; reflexivity. Qed.
+   matches d = 1 /\ leaf_count (log d) = 1 /\ length (log d) = 2%nat) /\
+  names_ok ex_multi = true /\ names_ok ex_multi2 = true /\
+  (exists out b, walk None (map render_port ex_multi2) [] = WOk out b /\ length out = 138%nat /\
+                 In ([0%nat; 1%nat], [47; 97; 50; 47; 98; 49; 47; 99; 47; 118; 49; 47; 119; 49; 48]) out) /\
+  apropos (map render_port ex_multi2) [47; 97; 50; 47; 98; 49; 47; 99; 47; 118; 49; 47; 119; 49; 48] = AFound [0%nat; 1%nat].
+Proof.
+  split; [vm_compute; reflexivity|]. split; [vm_compute; repeat split; reflexivity|].
+  split; [vm_compute; reflexivity|]. split; [vm_compute; reflexivity|]. split; [|vm_compute; reflexivity].
+  eexists. eexists. split; [vm_compute; reflexivity|]. split; [reflexivity|].
+  do 137 right. left. reflexivity.
+Qed.
